@@ -5,7 +5,7 @@ import probes
 import vlib
 
 PROP = "C05"
-PARTS = ["call", "method", "ctor", "return", "init", "tuple"]
+PARTS = ["call", "method", "ctor", "return", "init", "tuple", "result"]
 
 
 def explain(case, verdict, runs):
